@@ -27,6 +27,13 @@ CHECKS = {
         "text": "The real PollingEmitter is driven synchronously over a virtual file system; every (stat|listdir, path) position of a walk is failed with ENOENT/ENOTDIR/EACCES or preceded by a racing delete / dir-to-file replacement (exhaustive for the small universe, random for larger chains); per poll the multiset, classes, paths and deleted-before-created order of the queued events must equal the reference diff of the effective trees; root loss gives exactly one DirDeletedEvent and a stopped emitter.",
         "note": "Trusted: vlib/vfs.py, the effective-tree rule and reference diff written in props/c10.py. Threads/clock of the polling loop are out of scope here (C06).",
     },
+    "C15": {
+        "engine": "pure",
+        "design_ref": "DESIGN.md §4 C15",
+        "technique": "property-based testing: exhaustive product over event classes x paths x pattern/regex lists x flags + Hypothesis cells, compared with an independent reference evaluator (cross-checked with pathlib)",
+        "text": "Every cell of a bounded product (12 event classes, 7-10 paths, 10-13 pattern lists squared, regex lists, case/ignore flags, str/bytes) and random larger cells are dispatched through recording subclasses of the three handler classes; the recorded callback sequence must equal the reference verdict; filter_paths/match_any_paths are compared with the reference filter; identical include/exclude patterns must raise ValueError.",
+        "note": "Trusted: the reference matcher in props/c15.py (cross-checked against PurePosixPath.match on every evaluated cell; a disagreement aborts the run as inconclusive). No backslash/colon/leading '//' in paths.",
+    },
 }
 
 ALL = [f"C{i:02d}" for i in range(1, 21)]
